@@ -889,7 +889,7 @@ func (nl *NodeList) NodeDescendants(id string, maxDepth int) *NodeList {
 	nl2 := NodeList{
 		Nodes:        []*Node{},
 		Edges:        nl.Edges,
-		RootElements: []string{startNode.Id},
+		RootElements: []string{},
 	}
 
 	siblings := nodeIndex{}
@@ -942,6 +942,12 @@ func (nl *NodeList) NodeDescendants(id string, maxDepth int) *NodeList {
 	// Assign found nodes to nodelist
 	for _, n := range siblings {
 		nl2.AddNode(n)
+	}
+
+	// The start node is the root only if the traversal reached it
+	// (it does not when maxDepth is less than one).
+	if _, ok := siblings[startNode.Id]; ok {
+		nl2.RootElements = append(nl2.RootElements, startNode.Id)
 	}
 
 	nl2.cleanEdges()
